@@ -1,8 +1,8 @@
 (* C07 - DFXP output is well-formed XML and internally consistent.
    Only statements closed by `exact`, with Print Assumptions, and non-vacuity examples. *)
 From Coq Require Import List ZArith Bool.
-From PV Require Import lib.Sx lib.Str lib.Result model.DfxpXml model.DfxpRegion model.DfxpDoc model.DfxpSkel model.DfxpSkelHead spec.SpecXmlAttr spec.SpecXmlDoc.
-From PV Require Import proofs.XmlAttrFacts proofs.DfxpRegionFacts proofs.DfxpPayloadFacts proofs.DfxpDocFacts proofs.DfxpSkelFacts proofs.DfxpSkelRootFacts proofs.DfxpSkelHeadFacts.
+From PV Require Import lib.Sx lib.Str lib.Result model.DfxpXml model.DfxpRegion model.DfxpDoc model.DfxpSkel model.DfxpSkelHead model.DfxpSkelBody spec.SpecXmlAttr spec.SpecXmlDoc.
+From PV Require Import proofs.XmlAttrFacts proofs.DfxpRegionFacts proofs.DfxpPayloadFacts proofs.DfxpDocFacts proofs.DfxpSkelFacts proofs.DfxpSkelRootFacts proofs.DfxpSkelHeadFacts proofs.DfxpSkelBodyFacts.
 Import ListNotations.
 Open Scope Z_scope.
 
@@ -186,6 +186,35 @@ Theorem C07_document_with_styling_wellformed : forall legacy table lang regions 
 Proof. exact document_with_styling. Qed.
 Print Assumptions C07_document_with_styling_wellformed.
 
+(* ---- round 4: ids and references of the DOCUMENT. model/DfxpSkelBody.v builds the <region> dictionaries of <layout> and
+        the <div> / <p> / <span> dictionaries of <body> from the caption set as DFXPWriter.write does (the set is the
+        traversal model's, decorated with what the reference model does not look at: language codes, begin / end, the
+        positioning attributes of write_inline_positioning and of the <region> elements; `erase` forgets the decoration).
+        The ids (xml:id of every <style> and <region>) and the references (style= and region= of EVERY element of the
+        tree: style, region, div, p, span) READ FROM THESE DICTIONARIES are exactly the summary of the traversal model,
+        whenever the decoration carries no style / region / xml:id key; hence ok_refs - ids unique, every style= and
+        region= in head and body resolves to exactly one definition, every region defined is referenced - holds of the
+        tree, for every caption set of dom_doc (every dset is the erasure of a decorated set: the third statement).
+        DFXPWriter and, through single_positioning, SinglePositioningDFXPWriter; the tree of LegacyDFXPWriter is not
+        built (its statement stays C07_legacy_doc_consistent_partial). ---------------------------------------------- *)
+Theorem C07_document_tree_is_the_summary : forall extra x, deco_ok extra x ->
+  let t := tree_of extra x in let s := summarize (erase x) in
+  tree_ids t = s_ids s /\ tree_style_ids t = s_style_ids s /\ tree_region_ids t = s_region_ids s /\
+  tree_style_refs t = s_style_refs s /\ tree_region_refs t = s_region_refs s.
+Proof. exact tree_is_the_summary. Qed.
+Print Assumptions C07_document_tree_is_the_summary.
+Theorem C07_document_references_resolved : forall extra x, deco_ok extra x -> dom_doc (erase x) = true ->
+  let t := tree_of extra x in
+  ok_refs (tree_ids t) (tree_style_ids t) (tree_region_ids t) (tree_style_refs t) (tree_region_refs t) = 0.
+Proof. exact document_references_resolved. Qed.
+Print Assumptions C07_document_references_resolved.
+Theorem C07_every_set_has_a_resolved_tree : forall d, dom_doc d = true ->
+  exists x, erase x = d /\ deco_ok (fun _ => []) x /\
+            let t := tree_of (fun _ => []) x in
+            ok_refs (tree_ids t) (tree_style_ids t) (tree_region_ids t) (tree_style_refs t) (tree_region_refs t) = 0.
+Proof. exact every_set_has_a_resolved_tree. Qed.
+Print Assumptions C07_every_set_has_a_resolved_tree.
+
 (* ---- non-vacuity ------------------------------------------------------------------------------------------------ *)
 Example C07_example_attr :
   attr_out (lit "a""b<c&d") = [39] ++ lit "a""b&lt;c&amp;d" ++ [39] /\
@@ -338,4 +367,42 @@ Proof.
   split; [|vm_compute; repeat split].
   intros st [<-|[<-|[<-|[<-|[]]]]]; split; try reflexivity; cbn [snd map]; intros v Hv; cbn [In] in Hv;
     repeat match goal with H : _ \/ _ |- _ => destruct H end; subst; try reflexivity; contradiction.
+Qed.
+(* round 4: a decorated set - two styles with a chain, a caption with a layout of its own (region r0), a positioned span
+   with inline attributes that overwrite tts:textAlign, a layout nobody refers to (cleaned up) - satisfies the hypotheses;
+   the dictionaries of the tree and what is read from them *)
+Example C07_example_document_tree :
+  let L1 : lay := Some (1, true, true) in let L2 : lay := Some (2, true, true) in
+  let inl := [(lit "tts:origin", lit "10% 20%"); (lit "tts:textAlign", lit "end")] in
+  let x := mkXset None [(lit "k1", [(lit "color", lit "white")]); (lit "p", [(lit "class", lit "k1"); (lit "text-align", lit "left")])]
+             [mkXlang None
+                [mkXcap L1 (Some [(lit "class", lit "k1"); (lit "text-align", lit "start")])
+                   [mkXnode (mkDnode (mkRnode L2 false) []) [];
+                    mkXnode (mkDnode (mkRnode L1 true) [(lit "class", lit "p"); (lit "italics", lit "1")]) inl]
+                   (lit "00:00:01.000") (lit "00:00:02.000") inl;
+                 mkXcap None None [] (lit "00:00:03.000") (lit "00:00:04.000") []]
+                (lit "en") []] in
+  let extra := fun id : Z => if id =? 0 then [(lit "tts:origin", lit "10% 20%")] else [] in
+  let t := tree_of extra x in
+  deco_ok extra x /\ dom_doc (erase x) = true /\
+  t_regions t = [[(lit "xml:id", lit "bottom")]; [(lit "xml:id", lit "r0"); (lit "tts:origin", lit "10% 20%")]] /\
+  map fst (t_body t) = [[(lit "xml:lang", lit "en"); (lit "region", lit "bottom")]] /\
+  flat_map (fun dv => map fst (snd dv)) (t_body t)
+  = [[(lit "begin", lit "00:00:01.000"); (lit "end", lit "00:00:02.000"); (lit "style", lit "k1"); (lit "tts:textAlign", lit "end");
+      (lit "region", lit "r0"); (lit "tts:origin", lit "10% 20%")];
+     [(lit "begin", lit "00:00:03.000"); (lit "end", lit "00:00:04.000"); (lit "style", lit "p"); (lit "region", lit "bottom")]] /\
+  flat_map (fun dv => flat_map snd (snd dv)) (t_body t)
+  = [[(lit "style", lit "p"); (lit "tts:fontStyle", lit "italic"); (lit "region", lit "r0"); (lit "tts:origin", lit "10% 20%");
+      (lit "tts:textAlign", lit "end")]] /\
+  tree_ids t = [lit "k1"; lit "p"; lit "bottom"; lit "r0"] /\
+  tree_style_refs t = [lit "k1"; lit "k1"; lit "p"; lit "p"] /\
+  tree_region_refs t = [lit "bottom"; lit "r0"; lit "r0"; lit "bottom"].
+Proof.
+  cbn zeta. split; [|vm_compute; repeat split].
+  assert (N0 : noref []) by (repeat split; intros []).
+  assert (N1 : noref [(lit "tts:origin", lit "10% 20%"); (lit "tts:textAlign", lit "end")])
+    by (repeat split; cbn [map fst In]; intros H; repeat (destruct H as [H|H]; [discriminate|]); exact H).
+  split.
+  - intros id. destruct (id =? 0); [|exact N0]. repeat split; cbn [map fst In]; intros H; repeat (destruct H as [H|H]; [discriminate|]); exact H.
+  - repeat constructor; cbn; try exact N0; try exact N1; try apply N0; try apply N1.
 Qed.
